@@ -97,6 +97,46 @@ func init() {
 			}
 		}
 
+		c.Rule("C38e override semantics and non-empty batches: BaseChainParser.ExtensionParsing derives extensions itself only under ExtensionOverride == nil (an empty, non-nil override means 'the consumer chose none'); in the JSON-RPC and Tendermint parsers the code after the per-message loop (which dereferences the api collection assigned inside the loop) is reached only past len(msgs) != 0, tested directly or by a helper all of whose nil returns are under its length parameter != 0")
+		if ep := c.Fn(cl + "BaseChainParser.ExtensionParsing"); ep != nil {
+			c.RequireGuards("C38e", c.CallsByName(ep, false, cl+"BaseChainParser.extensionParsingInner"), "derive-extensions", FactHas("override-is-nil", "(param#2.ExtensionOverride == nil)"))
+		}
+		for _, pn := range []string{"JsonRPCChainParser", "TendermintChainParser"} {
+			fn := c.Fn(cl + pn + ".ParseMsg")
+			if fn == nil {
+				continue
+			}
+			for _, s := range c.CallsByName(fn, false, cl+"BaseChainParser.ExtensionParsing") {
+				ok := false
+				for _, g := range ir.Guards(s.Instr) {
+					if strings.HasPrefix(g.Fact, "(call(builtin:len)(") && strings.HasSuffix(g.Fact, " != const(0))") {
+						ok = true
+					}
+					// helper(len(msgs)) == nil
+					v, edge := stripNot(g.If.Cond, g.Edge)
+					if b, isBin := v.(*ssa.BinOp); isBin && edge == (b.Op.String() == "==") && isNilConst(b.Y) {
+						if hc, _ := callOfValue(b.X); hc != nil && hc.Call.StaticCallee() != nil && len(hc.Call.Args) >= 1 && strings.HasPrefix(ir.Desc(hc.Call.Args[0]), "call(builtin:len)(") {
+							h := hc.Call.StaticCallee()
+							all := len(h.Blocks) > 0
+							for _, r := range c.SuccessReturns(h) {
+								if !ir.HasFact(ir.GuardFacts(r.Instr), "(param#0 != const(0))") {
+									all = false
+								}
+							}
+							if all {
+								ok = true
+							}
+						}
+					}
+				}
+				if ok {
+					c.OK("C38e/"+pn+".ParseMsg/post-loop-code-needs-a-message", c.P.InstrPos(s.Instr), "")
+				} else {
+					c.Fail("C38e/"+pn+".ParseMsg/post-loop-code-needs-a-message", c.P.InstrPos(s.Instr), "an empty batch reaches the code after the per-message loop, which dereferences the api collection that only the loop assigns: parsing `[]` panics instead of failing cleanly")
+				}
+			}
+		}
+
 		c.Rule("C38c consumer: ParseRelay builds the relay data from the url, request bytes and connection type it parsed, the requested block of the parsed message, chainlib.GetAddon of it and the names of its extensions")
 		var nrd *ssa.Call
 		ir.EachInstr(pr, func(in ssa.Instruction) {
